@@ -2,6 +2,8 @@ package bridgesim
 
 import (
 	"context"
+	"net/http"
+	"time"
 	"fmt"
 	"io"
 	"os"
@@ -74,6 +76,9 @@ func (e *Engine) Generate(prop, tier string, seed uint64, run int) *sim.Plan {
 	p := &sim.Plan{Property: prop, Engine: "bridgesim", Tier: tier, Seed: seed, Run: run, RunSeed: rs, Cfg: map[string]interface{}{
 		"page_size": r.Range(1, 4), "faults": faults, "id_overlap": r.Chance(0.25),
 	}}
+	if sim.NewRand(sim.Mix(rs, 0x6172)).Chance(0.5) {
+		p.Cfg["tracker"] = "github"
+	}
 	n := r.Range(4, 9)
 	if tier == "thorough" {
 		n = r.Range(6, 16)
@@ -213,7 +218,8 @@ type repoState struct {
 }
 
 // readState reads every bug and identity of the replica through a side-effect-free handle.
-func readState(rep *sim.Replica) repoState {
+func readState(rep *sim.Replica, m trackerModel) repoState {
+	evKey, userKey := m.MetaKeys()
 	rs := repoState{Bugs: map[string]bugState{}}
 	obs := rep.Observer()
 	logins := map[string]string{}
@@ -229,7 +235,7 @@ func readState(rep *sim.Replica) repoState {
 		}
 		rs.Idents++
 		logins[string(i.Id())] = i.Login()
-		if gid, ok := i.ImmutableMetadata()["gitlab-id"]; ok {
+		if gid, ok := i.ImmutableMetadata()[userKey]; ok {
 			if prev, dup := seenUser[gid]; dup {
 				rs.Dups = append(rs.Dups, fmt.Sprintf("identities %s and %s both stand for tracker user %s", prev[:7], string(i.Id())[:7], gid))
 			}
@@ -261,7 +267,7 @@ func readState(rep *sim.Replica) repoState {
 			if err := op.Validate(); err != nil {
 				rs.Invalid = append(rs.Invalid, fmt.Sprintf("bug %s op %d (%s): %v", b.Id().Human(), i, op.Type(), err))
 			}
-			gid, ok := op.GetMetadata("gitlab-id")
+			gid, ok := op.GetMetadata(evKey)
 			if !ok {
 				continue
 			}
@@ -322,8 +328,9 @@ type roundResult struct {
 type exec struct {
 	p       *sim.Plan
 	w       *sim.World
-	t       *tracker
-	srv     *server
+	t       trackerModel
+	srv     endpoint
+	github  bool
 	res     *sim.RunResult
 	viol    map[string]bool
 	step    int
@@ -342,22 +349,28 @@ func (x *exec) add(kind, format string, a ...interface{}) {
 		return
 	}
 	x.viol[kind] = true
-	if c := x.t.collision(); c != "" && kind != "panic" {
-		format = "with a tracker id shared between GitLab's separate id sequences (" + c + "): " + format
+	if c := x.t.Collision(); c != "" && kind != "panic" {
+		format = c + ": " + format
 	}
 	x.res.Violations = append(x.res.Violations, sim.Violation{Property: x.p.Property, Kind: kind, Detail: fmt.Sprintf(format, a...), Step: x.step, Pin: x.pin})
 }
 
-func configure(rep *sim.Replica) error {
+func configure(rep *sim.Replica, github bool) error {
 	cfg := rep.Cache.LocalConfig()
-	for k, v := range map[string]string{"target": "gitlab", "project-id": projectID, "base-url": baseURL, "default-login": "user1"} {
+	conf := map[string]string{"target": "gitlab", "project-id": projectID, "base-url": baseURL, "default-login": "user1"}
+	tok := auth.NewToken("gitlab", "glpat-simulated")
+	tok.SetMetadata(auth.MetaKeyLogin, "user1")
+	tok.SetMetadata(auth.MetaKeyBaseURL, baseURL)
+	if github {
+		conf = map[string]string{"target": "github", "owner": "owner", "project": "project", "default-login": "octo1"}
+		tok = auth.NewToken("github", "ghp-simulated")
+		tok.SetMetadata(auth.MetaKeyLogin, "octo1")
+	}
+	for k, v := range conf {
 		if err := cfg.StoreString("git-bug.bridge."+bridgeName+"."+k, v); err != nil {
 			return err
 		}
 	}
-	tok := auth.NewToken("gitlab", "glpat-simulated")
-	tok.SetMetadata(auth.MetaKeyLogin, "user1")
-	tok.SetMetadata(auth.MetaKeyBaseURL, baseURL)
 	return auth.Store(rep.Cache, tok)
 }
 
@@ -390,10 +403,7 @@ func (x *exec) round(rep *sim.Replica, f *fault, randStep uint64) (rr roundResul
 	ctx, cancel := context.WithCancel(context.Background())
 	defer cancel()
 	x.srv.resetRound(f)
-	fired0 := 0
-	for _, n := range x.srv.Fired {
-		fired0 += n
-	}
+	_, fired0 := x.srv.round()
 	verifrt.TakePanics()
 	b, err := core.LoadBridge(rep.Cache, bridgeName)
 	if err != nil {
@@ -425,18 +435,13 @@ func (x *exec) round(rep *sim.Replica, f *fault, randStep uint64) (rr roundResul
 		}
 	}
 	rr.Panics = verifrt.TakePanics()
-	x.srv.mu.Lock()
-	rr.Requests = append([]string(nil), x.srv.Requests...)
-	fired1 := 0
-	for _, n := range x.srv.Fired {
-		fired1 += n
-	}
-	x.srv.mu.Unlock()
+	var fired1 int
+	rr.Requests, fired1 = x.srv.round()
 	sort.Strings(rr.Requests)
 	rr.Fired = fired1 > fired0
 	rr.Cursor1, _ = rep.Cache.LocalConfig().ReadString(cursorKey)
 	rr.Refs1 = refsDigest(rep)
-	rr.State = readState(rep)
+	rr.State = readState(rep, x.t)
 	return rr, nil
 }
 
@@ -454,18 +459,13 @@ func (x *exec) judge(rr roundResult, armed *fault, label string) {
 	if len(rr.State.Dups) > 0 {
 		x.add("duplicate-operation", "%s: %s", label, rr.State.Dups[0])
 	}
-	for _, is := range x.t.Issues {
-		if b, ok := rr.State.Bugs[fmt.Sprint(is.IID)]; ok && b.NOps > is.Actions {
-			x.add("duplicate-operation", "%s: issue %d saw %d tracker-side actions (creation included) but its bug holds %d operations", label, is.IID, is.Actions, b.NOps)
+	for key, actions := range x.t.ActionsOf() {
+		if b, ok := rr.State.Bugs[key]; ok && b.NOps > actions {
+			x.add("duplicate-operation", "%s: issue %s saw %d tracker-side actions (creation included) but its bug holds %d operations", label, key, actions, b.NOps)
 		}
 	}
-	live := 0
-	for _, u := range x.t.Users {
-		_ = u
-		live++
-	}
-	if rr.State.Idents > live {
-		x.add("duplicate-operation", "%s: %d identities for %d tracker users", label, rr.State.Idents, live)
+	if rr.State.Idents > x.t.NUsers() {
+		x.add("duplicate-operation", "%s: %d identities for %d tracker users", label, rr.State.Idents, x.t.NUsers())
 	}
 	clean := armed == nil || (!rr.Fired && armed.Kind != "midgrow")
 	if rr.Fired && armed.Kind != "midgrow" {
@@ -478,7 +478,7 @@ func (x *exec) judge(rr roundResult, armed *fault, label string) {
 		if len(rr.Errs) > 0 {
 			x.add("clean-import-error", "%s: no request failed, yet the import reported: %s", label, sim.Trunc(rr.Errs[0], 240))
 		} else {
-			if d := diffStates(rr.State.Bugs, x.t.expected(), "repository", "tracker", !x.deleted); d != "" {
+			if d := diffStates(rr.State.Bugs, x.t.Expected(), "repository", "tracker", !x.deleted); d != "" {
 				if x.dirty {
 					x.add("recovery-differs", "%s: the clean round after a failed one does not end in the tracker's state: %s", label, d)
 				} else {
@@ -486,7 +486,7 @@ func (x *exec) judge(rr roundResult, armed *fault, label string) {
 				}
 			}
 			x.dirty = false
-			if x.cleanVersion == x.t.Version && (rr.Refs0 != rr.Refs1 || rr.Imported > 0) {
+			if x.cleanVersion == x.t.Ver() && (rr.Refs0 != rr.Refs1 || rr.Imported > 0) {
 				x.add("reimport-added-data", "%s: the tracker did not change since the last clean import, yet the round reported %d imported item(s) and refs changed=%v", label, rr.Imported, rr.Refs0 != rr.Refs1)
 			}
 		}
@@ -514,38 +514,7 @@ func (x *exec) note(rr roundResult, label string) {
 	}
 }
 
-func (x *exec) faultKey(st *sim.Step) string {
-	t := x.t
-	ps := x.srv.pageSize
-	pages := func(n int) int {
-		p := (n + ps - 1) / ps
-		if p < 1 {
-			p = 1
-		}
-		return p
-	}
-	if len(t.Issues) == 0 {
-		return "/projects/" + projectID + "/issues?page=1"
-	}
-	is := t.Issues[st.B%len(t.Issues)]
-	switch st.K {
-	case "issues":
-		return fmt.Sprintf("/projects/%s/issues?page=%d", projectID, st.N%pages(len(t.Issues))+1)
-	case "notes":
-		return fmt.Sprintf("/projects/%s/issues/%d/notes?page=%d", projectID, is.IID, st.N%pages(len(is.Notes))+1)
-	case "labels":
-		return fmt.Sprintf("/projects/%s/issues/%d/resource_label_events?page=%d", projectID, is.IID, st.N%pages(len(is.Labels))+1)
-	case "states":
-		return fmt.Sprintf("/projects/%s/issues/%d/resource_state_events?page=%d", projectID, is.IID, st.N%pages(len(is.States))+1)
-	default:
-		var ids []int
-		for id := range t.Users {
-			ids = append(ids, id)
-		}
-		sort.Ints(ids)
-		return fmt.Sprintf("/users/%d?page=1", ids[st.B%len(ids)])
-	}
-}
+func (x *exec) faultKey(st *sim.Step) string { return x.srv.faultKey(st) }
 
 func copyTree(src, dst string) error {
 	return filepath.Walk(src, func(p string, info os.FileInfo, err error) error {
@@ -578,12 +547,13 @@ func copyTree(src, dst string) error {
 }
 
 func (x *exec) setWall(rep *sim.Replica, d int64) {
-	if rep.Wall < x.t.Clock {
-		rep.Wall = x.t.Clock
+	clk := x.t.Clk()
+	if rep.Wall < *clk {
+		rep.Wall = *clk
 	}
 	rep.Wall += d
-	if x.t.Clock < rep.Wall {
-		x.t.Clock = rep.Wall
+	if *clk < rep.Wall {
+		*clk = rep.Wall
 	}
 }
 
@@ -599,18 +569,40 @@ func (e *Engine) Execute(p *sim.Plan, keepLog bool) (res *sim.RunResult) {
 		}
 	}()
 	r := sim.NewRand(sim.Mix(p.RunSeed, 0xB16))
-	x.t = newTracker(r, p.CfgBool("id_overlap"))
-	x.srv = &server{t: x.t, pageSize: p.CfgInt("page_size", 2), Fired: map[string]int{}, seen: map[string]int{}}
-	gitlabhook.SetTransport(x.srv)
+	x.github = p.CfgStr("tracker", "gitlab") == "github"
+	if x.github {
+		gt := newGhTracker()
+		x.t = gt
+		gs := &ghServer{t: gt, issuesPS: p.CfgInt("page_size", 2), timelinePS: 1 + p.CfgInt("page_size", 2), Fired: map[string]int{}, seen: map[string]int{}}
+		x.srv = gs
+		// oauth2.NewClient(context.TODO(), …) in bridge/github falls back to the default transport
+		prevTransport := http.DefaultTransport
+		http.DefaultTransport = gs
+		defer func() { http.DefaultTransport = prevTransport }()
+		// retry and rate-limit waits (8, 16, 24 s, up to 30 s) elapse on the simulated clock
+		verifrt.SetSleep(func(d time.Duration) {
+			if cur := x.w.Cur(); cur != nil {
+				cur.Wall += int64(d / time.Second)
+			}
+			x.res.Probes["simulated_wait"]++
+		})
+		defer verifrt.SetSleep(nil)
+	} else {
+		gl := newTracker(r, p.CfgBool("id_overlap"))
+		x.t = gl
+		gs := &server{t: gl, pageSize: p.CfgInt("page_size", 2), Fired: map[string]int{}, seen: map[string]int{}}
+		x.srv = gs
+		gitlabhook.SetTransport(gs)
+	}
 
-	rep := w.AddReplica("importer", "cache", x.t.Clock+10)
+	rep := w.AddReplica("importer", "cache", *x.t.Clk()+10)
 	w.Act(rep)
 	sim.SetRandStep(1)
 	if err := rep.Init(); err != nil {
 		res.HarnessErr = err.Error()
 		return res
 	}
-	if err := configure(rep); err != nil {
+	if err := configure(rep, x.github); err != nil {
 		res.HarnessErr = "configure: " + err.Error()
 		return res
 	}
@@ -627,10 +619,10 @@ func (e *Engine) Execute(p *sim.Plan, keepLog bool) (res *sim.RunResult) {
 		res.Steps++
 		switch st.Op {
 		case "grow":
-			x.t.grow(sim.NewRand(sim.Mix(p.RunSeed, uint64(st.A))), st.N)
-			x.log = append(x.log, fmt.Sprintf("grow %d -> v%d", st.N, x.t.Version))
+			x.t.Grow(sim.NewRand(sim.Mix(p.RunSeed, uint64(st.A))), st.N)
+			x.log = append(x.log, fmt.Sprintf("grow %d -> v%d", st.N, x.t.Ver()))
 		case "deluser":
-			if x.t.deleteUser(st.A) {
+			if x.t.DeleteUser(st.A) {
 				x.deleted = true
 				res.Probes["user_deleted"]++
 			}
@@ -641,10 +633,10 @@ func (e *Engine) Execute(p *sim.Plan, keepLog bool) (res *sim.RunResult) {
 				f = &fault{Key: x.faultKey(st), Kind: st.F}
 				if st.F == "midgrow" {
 					gr := sim.NewRand(sim.Mix(p.RunSeed, uint64(st.A)))
-					f.Grow = func() { x.t.grow(gr, 1+st.N%3) }
+					f.Grow = func() { x.t.Grow(gr, 1+st.N%3) }
 				}
 			}
-			v0 := x.t.Version
+			v0 := x.t.Ver()
 			rr, err := x.round(rep, f, uint64(st.Id)*1000)
 			if err != nil {
 				res.HarnessErr = err.Error()
@@ -661,11 +653,11 @@ func (e *Engine) Execute(p *sim.Plan, keepLog bool) (res *sim.RunResult) {
 			}
 			x.judge(rr, f, label)
 			x.note(rr, "import")
-			if (f == nil || !rr.Fired) && len(rr.Errs) == 0 && len(rr.Panics) == 0 && x.t.Version == v0 {
+			if (f == nil || !rr.Fired) && len(rr.Errs) == 0 && len(rr.Panics) == 0 && x.t.Ver() == v0 {
 				x.cleanVersion = v0
 			}
-			if x.t.Clock < rep.Wall {
-				x.t.Clock = rep.Wall
+			if clk := x.t.Clk(); *clk < rep.Wall {
+				*clk = rep.Wall
 			}
 		case "enum":
 			if herr := x.enumerate(rep, st, &firedAny); herr != nil {
@@ -692,7 +684,7 @@ func (e *Engine) Execute(p *sim.Plan, keepLog bool) (res *sim.RunResult) {
 		x.judge(rr, nil, "closing round")
 		x.note(rr, "closing")
 		if len(rr.Errs) == 0 && len(rr.Panics) == 0 {
-			x.cleanVersion = x.t.Version
+			x.cleanVersion = x.t.Ver()
 		}
 		final := rr.State
 		if len(res.Violations) == 0 {
@@ -715,7 +707,7 @@ func (e *Engine) Execute(p *sim.Plan, keepLog bool) (res *sim.RunResult) {
 				res.HarnessErr = err.Error()
 				return res
 			}
-			if err := configure(ctl); err != nil {
+			if err := configure(ctl, x.github); err != nil {
 				res.HarnessErr = err.Error()
 				return res
 			}
@@ -740,7 +732,7 @@ func (e *Engine) Execute(p *sim.Plan, keepLog bool) (res *sim.RunResult) {
 			x.note(rc, "control")
 		}
 	}
-	res.SimSeconds = x.t.Clock - 1_600_000_000
+	res.SimSeconds = *x.t.Clk() - 1_600_000_000
 	res.LogHash = model.Sha256Hex([]byte(strings.Join(x.log, "\n")))[:16]
 	if keepLog {
 		res.Trace = x.log
@@ -835,7 +827,7 @@ func (x *exec) enumerate(rep *sim.Replica, st *sim.Step, firedAny *bool) error {
 	x.pin = nil
 	x.res.Probes["enumerated_requests"] += len(ref.Requests)
 	if len(ref.Errs) == 0 {
-		x.cleanVersion = x.t.Version
+		x.cleanVersion = x.t.Ver()
 	}
 	return nil
 }
